@@ -1,5 +1,5 @@
 From Coq Require Extraction.
 From Coq Require Import ExtrOcamlBasic.
 From AIT Require Import Base.Vio Base.Qx Base.Mdp Base.MdpExec C02.Model C02.Spec.
-Extraction "model.ml" vio_kit wf_mdpb EV_r tau_step_r vbest ip_run prune_pw rtbss_sim ops_ok obs_cleanb check_vf
+Extraction "model.ml" vio_kit wf_mdpb wf_mdp1b EV_r tau_step_r vbest ip_run prune_pw rtbss_sim ops_ok obs_cleanb check_vf
   exec_return rew_at tau_step possible schedule.
